@@ -394,11 +394,9 @@ class TermBuilder:
             return None
         from .guards import PathConditions
         if self._pcs is None:
-            self._pc_busy = True
-            try:
-                self._pcs = PathConditions(self.fn, self)
-            finally:
-                self._pc_busy = False
+            # literals are computed by a separate, unguarded builder so that no half-built guarded term is memoised
+            plain = TermBuilder(self.prog, self.fn, self.self_cls, self.inline, self.depth)
+            self._pcs = PathConditions(self.fn, plain)
         pcs = [tuple(self._pcs.of(d.stmt)) for d in defs]
         common = set(pcs[0])
         for pc in pcs[1:]:
